@@ -6,3 +6,5 @@
 mod tables;
 #[cfg(kani)]
 mod errors;
+#[cfg(kani)]
+mod readers;
